@@ -5,9 +5,9 @@ Core Lean only (linked into the driver `drv_e4`).
 
 Shape kept from the code:
 * `RegistrationDB.registrationMap : map[Registration]ProducerMap` is an association list
-  `Key ↦ (peer id ↦ Tomb)`; Go map semantics (`get/set/del`) are the three functions of
+  `Key ↦ (peer id ↦ Tomb)`; Go map semantics (`mget/mset/mdel`) are the three functions of
   `AMap`. Iteration order of Go maps is not modelled: every answer that iterates a map is
-  compared as a sorted list / set.
+  compared as a sorted list / mset.
 * `*PeerInfo` pointers shared by all `Producer`s of one connection are peer ids (`Nat`) into
   `peers` (`client.peerInfo` of every identified, still-open connection).
 * time is an input (`now`), never read.
@@ -21,19 +21,19 @@ abbrev Name := List UInt8
 namespace AMap
 variable {α : Type} {β : Type} [DecidableEq α]
 
-def get : List (α × β) → α → Option β
+def mget : List (α × β) → α → Option β
   | [], _ => none
-  | e :: m, k => if e.1 = k then some e.2 else get m k
+  | e :: m, k => if e.1 = k then some e.2 else mget m k
 
-def set : List (α × β) → α → β → List (α × β)
+def mset : List (α × β) → α → β → List (α × β)
   | [], k, v => [(k, v)]
-  | e :: m, k, v => if e.1 = k then (k, v) :: m else e :: set m k v
+  | e :: m, k, v => if e.1 = k then (k, v) :: m else e :: mset m k v
 
-def del : List (α × β) → α → List (α × β)
+def mdel : List (α × β) → α → List (α × β)
   | [], _ => []
-  | e :: m, k => if e.1 = k then del m k else e :: del m k
+  | e :: m, k => if e.1 = k then mdel m k else e :: mdel m k
 
-def keys (m : List (α × β)) : List α := m.map (·.1)
+def mkeys (m : List (α × β)) : List α := m.map (·.1)
 
 end AMap
 open AMap
@@ -117,32 +117,32 @@ def chanKey (t c : Name) : Key := ⟨.channel, t, c⟩
 /-! ## RegistrationDB methods -/
 
 def addRegistration (db : DB) (k : Key) : DB :=
-  match get db k with
+  match mget db k with
   | some _ => db
-  | none => set db k []
+  | none => mset db k []
 
 /-- `AddProducer(k, &Producer{peerInfo: p})` -/
 def addProducer (db : DB) (k : Key) (id : Nat) : DB :=
-  match get db k with
-  | none => set db k [(id, fresh)]
+  match mget db k with
+  | none => mset db k [(id, fresh)]
   | some pm =>
-    match get pm id with
+    match mget pm id with
     | some _ => db
-    | none => set db k (set pm id fresh)
+    | none => mset db k (mset pm id fresh)
 
 /-- `RemoveProducer` (state part) -/
 def removeProducer (db : DB) (k : Key) (id : Nat) : DB :=
-  match get db k with
+  match mget db k with
   | none => db
-  | some pm => set db k (del pm id)
+  | some pm => mset db k (mdel pm id)
 
 /-- `RemoveProducer` (second result: producers left; 0 when the key does not exist) -/
 def leftAfterRemove (db : DB) (k : Key) (id : Nat) : Nat :=
-  match get db k with
+  match mget db k with
   | none => 0
-  | some pm => (del pm id).length
+  | some pm => (mdel pm id).length
 
-def removeRegistration (db : DB) (k : Key) : DB := del db k
+def removeRegistration (db : DB) (k : Key) : DB := mdel db k
 
 def isMatch (k : Key) (cat : Cat) (key sub : Name) : Bool :=
   cat = k.cat && (key = star || k.key = key) && (sub = star || k.sub = sub)
@@ -150,21 +150,21 @@ def isMatch (k : Key) (cat : Cat) (key sub : Name) : Bool :=
 def needFilter (key sub : Name) : Bool := key = star || sub = star
 
 def findRegistrations (db : DB) (cat : Cat) (key sub : Name) : List Key :=
-  if needFilter key sub then (keys db).filter (fun k => isMatch k cat key sub)
+  if needFilter key sub then (mkeys db).filter (fun k => isMatch k cat key sub)
   else
-    match get db ⟨cat, key, sub⟩ with
+    match mget db ⟨cat, key, sub⟩ with
     | some _ => [⟨cat, key, sub⟩]
     | none => []
 
 /-- `FindProducers` on the exact-key path (`key ≠ "*"`, `subkey ≠ "*"`). -/
 def producersOf (db : DB) (k : Key) : PMap :=
-  match get db k with
+  match mget db k with
   | some pm => pm
   | none => []
 
 /-- `LookupRegistrations(id)` -/
 def lookupRegistrations (db : DB) (id : Nat) : List Key :=
-  (db.filter (fun e => (get e.2 id).isSome)).map (·.1)
+  (db.filter (fun e => (mget e.2 id).isSome)).map (·.1)
 
 def removeProducerAll (db : DB) (ks : List Key) (id : Nat) : DB :=
   ks.foldl (fun d k => removeProducer d k id) db
@@ -190,13 +190,13 @@ def TcpOut.isErr : TcpOut → Bool
   | .err _ _ => true
   | _ => false
 
-def identifiedB (r : Registry) (p : Nat) : Bool := (get r.peers p).isSome
+def identifiedB (r : Registry) (p : Nat) : Bool := (mget r.peers p).isSome
 
 /-- exit path of `IOLoop`: all of the peer's registrations are removed and the client object
 (with its `peerInfo`) is gone. -/
 def disconnect (r : Registry) (p : Nat) : Registry :=
   if identifiedB r p then
-    { db := removeProducerAll r.db (lookupRegistrations r.db p) p, peers := del r.peers p }
+    { db := removeProducerAll r.db (lookupRegistrations r.db p) p, peers := mdel r.peers p }
   else r
 
 def ascii (s : String) : List UInt8 := s.toUTF8.toList
@@ -228,7 +228,7 @@ def missingFields (i : Info) : Bool :=
 def identify (r : Registry) (p : Nat) (info : Info) (now : Int) : Registry × TcpOut :=
   if identifiedB r p then (disconnect r p, .err .invalid (ascii "cannot IDENTIFY again"))
   else if missingFields info then (r, .err .badBody (ascii "IDENTIFY missing fields"))
-  else ({ db := addProducer r.db clientKey p, peers := set r.peers p ⟨now, info⟩ }, .identified)
+  else ({ db := addProducer r.db clientKey p, peers := mset r.peers p ⟨now, info⟩ }, .identified)
 
 def registerDB (db : DB) (p : Nat) (tc : TopicChan) : DB :=
   addProducer (if tc.chan ≠ [] then addProducer db (chanKey tc.topic tc.chan) p else db)
@@ -261,8 +261,8 @@ def unregister (r : Registry) (p : Nat) (params : List Name) : Registry × TcpOu
     | .ok tc => ({ r with db := unregisterDB r.db p tc }, .ok)
 
 def ping (r : Registry) (p : Nat) (now : Int) : Registry :=
-  match get r.peers p with
-  | some pr => { r with peers := set r.peers p { pr with lastUpdate := now } }
+  match mget r.peers p with
+  | some pr => { r with peers := mset r.peers p { pr with lastUpdate := now } }
   | none => r
 
 /-! ## HTTP handlers (http.go) -/
@@ -342,7 +342,7 @@ def intDec (i : Int) : List UInt8 := ascii (toString i)
 def nodeOf (i : Info) : Name := i.bcast ++ [58] ++ intDec i.http
 
 def nodeMatches (r : Registry) (id : Nat) (node : Name) : Bool :=
-  match get r.peers id with
+  match mget r.peers id with
   | some pr => nodeOf pr.info = node
   | none => false
 
@@ -362,20 +362,20 @@ def wildcardTargets : DB → List Nat → List (Key × Nat)
     else wildcardTargets m seen
 
 def tombstoneOne (r : Registry) (db : DB) (k : Key) (id : Nat) (node : Name) (now : Int) : DB :=
-  match get db k with
+  match mget db k with
   | none => db
   | some pm =>
     if nodeMatches r id node then
-      set db k (pm.map (fun e => if e.1 = id then (e.1, ⟨true, now⟩) else e))
+      mset db k (pm.map (fun e => if e.1 = id then (e.1, ⟨true, now⟩) else e))
     else db
 
 def tombstoneDB (r : Registry) (t node : Name) (now : Int) : DB :=
   if t = star then
     (wildcardTargets r.db []).foldl (fun d kid => tombstoneOne r d kid.1 kid.2 node now) r.db
   else
-    match get r.db (topicKey t) with
+    match mget r.db (topicKey t) with
     | none => r.db
-    | some pm => set r.db (topicKey t) (tombstonePM r pm node now)
+    | some pm => mset r.db (topicKey t) (tombstonePM r pm node now)
 
 def tombstone (r : Registry) (a : HttpArgs) (now : Int) : Registry × HttpOut :=
   if a.badQuery then (r, .err 400 "INVALID_REQUEST")
@@ -395,7 +395,7 @@ def isTombstoned (tb : Tomb) (lifetime now : Int) : Bool :=
 
 /-- one producer passes `FilterByActive(inactive, lifetime)` at `now` -/
 def activeB (r : Registry) (inactive lifetime now : Int) (e : Nat × Tomb) : Bool :=
-  match get r.peers e.1 with
+  match mget r.peers e.1 with
   | some pr => !(decide (now - pr.lastUpdate > inactive) || isTombstoned e.2 lifetime now)
   | none => false
 
@@ -416,7 +416,7 @@ structure LookupAns where
 deriving DecidableEq, Repr
 
 def peerInfos (r : Registry) (pm : PMap) : List (Nat × Info) :=
-  pm.filterMap (fun e => (get r.peers e.1).map (fun pr => (e.1, pr.info)))
+  pm.filterMap (fun e => (mget r.peers e.1).map (fun pr => (e.1, pr.info)))
 
 /-- `GET /lookup?topic=t` for `t ≠ "*"`; `none` = 404 TOPIC_NOT_FOUND -/
 def qLookup (c : Conf) (r : Registry) (t : Name) (now : Int) : Option LookupAns :=
@@ -432,7 +432,7 @@ deriving DecidableEq, Repr
 
 /-- the tombstone flag `/nodes` reports for (peer, topic) -/
 def tombFlag (c : Conf) (r : Registry) (id : Nat) (t : Name) (now : Int) : Bool :=
-  match get (producersOf r.db (topicKey t)) id with
+  match mget (producersOf r.db (topicKey t)) id with
   | some tb => isTombstoned tb c.tombLife now
   | none => false
 
@@ -443,7 +443,7 @@ def nodeTopics (c : Conf) (r : Registry) (id : Nat) (now : Int) : List (Name × 
 /-- `GET /nodes` -/
 def qNodes (c : Conf) (r : Registry) (now : Int) : List NodeAns :=
   (filterByActive r c.inactive 0 now (producersOf r.db clientKey)).filterMap
-    (fun e => (get r.peers e.1).map (fun pr => ⟨e.1, pr.info, nodeTopics c r e.1 now⟩))
+    (fun e => (mget r.peers e.1).map (fun pr => ⟨e.1, pr.info, nodeTopics c r e.1 now⟩))
 
 structure DebugProducer where
   id : Nat
@@ -455,7 +455,7 @@ deriving DecidableEq, Repr
 /-- `GET /debug`: every registration with at least one producer -/
 def qDebug (r : Registry) : List (Key × List DebugProducer) :=
   (r.db.filter (fun e => !e.2.isEmpty)).map (fun e =>
-    (e.1, e.2.filterMap (fun pe => (get r.peers pe.1).map
+    (e.1, e.2.filterMap (fun pe => (mget r.peers pe.1).map
       (fun pr => ⟨pe.1, pr.lastUpdate, pe.2.tombstoned, pe.2.tombAt⟩))))
 
 /-! ## One step of a history -/
